@@ -415,7 +415,7 @@ def check_coefficient_kind(ctx, repo, qual):
         ctx.violation(c, "a non-blade attribute name returns a value instead of raising AttributeError", fn)
 
 
-@rule("C11.coefficient-kind", props=["C11", "C15"], min_instances=10, mutants=[
+@rule("C11.coefficient-kind", props=["C11", "C15", "C14"], min_instances=10, mutants=[
     ("coefficient keeps its blade key", ("taperecorder", "                keys=(0,)\n            )\n\n    def grade", "                keys=(self.keys()[idx],)\n            )\n\n    def grade")),
 ])
 def coefficient_kind(ctx):
@@ -600,7 +600,8 @@ def check_emission(ctx, repo):
     unary_ops = [n for n, row in reg.items() if "Unary" in row.dict_class]
     q = f"{TR}.binary_operator"
     fn = ctx.func(q)
-    for other_kind, number in (("recorder", None), ("number", 5), ("number", 1), ("number", 0)):
+    for other_kind, number in (("recorder", None), ("number", 5), ("number", 1), ("number", 0), ("number", 1234567.25),
+                               ("number", 0.1234567891), ("number", -2.5)):
         bad_ops = []
         for requested in binary_ops:
             calls.clear()
@@ -633,7 +634,18 @@ def check_emission(ctx, repo):
             if got_key != want_key:
                 problems.append(f"{requested}: cache lookup key is {got_key}, expected {want_key} (operand order / scalar key)")
             if not isinstance(expr, str) or expr.replace(" ", "") != want_expr.replace(" ", ""):
-                problems.append(f"{requested}: emitted call is {expr!r}, expected {want_expr!r}")
+                # any spelling of the same literal is the same call: compare the parsed call, the number by value and type
+                same = False
+                try:
+                    call = ast.parse(expr, mode="eval").body if isinstance(expr, str) else None
+                    if other_kind == "number" and isinstance(call, ast.Call) and un(call.func) == "FN1" and len(call.args) == 2 \
+                            and un(call.args[0]) == "EXPR_A" and not call.keywords:
+                        lit = ast.literal_eval(call.args[1])
+                        same = isinstance(lit, tuple) and len(lit) == 1 and type(lit[0]) is type(number) and lit[0] == number
+                except (SyntaxError, ValueError):
+                    same = False
+                if not same:
+                    problems.append(f"{requested}: emitted call is {expr!r}, expected {want_expr!r}")
             if not (isinstance(keys, Obj) and keys.attrs.get("fmt") == "KEYS_OUT1"):
                 problems.append(f"{requested}: recorded keys are not the keys_out of the same cache lookup")
             bad_ops.extend(problems)
@@ -671,11 +683,12 @@ def check_emission(ctx, repo):
         ctx.ok(q, fn, operators=len(unary_ops))
 
 
-@rule("C11.emission-pairing", props=["C11", "C03"], min_instances=5, mutants=[
+@rule("C11.emission-pairing", props=["C11", "C03", "C16"], min_instances=5, mutants=[
     ("the number 1 is taken for the identity of every operator", ("taperecorder", "            # Assume scalar\n", "            # Assume scalar\n            if other == 1:\n                return self\n")),
     ("products with a plain number are recorded as the geometric product", ("taperecorder", "            # Assume scalar\n", "            if operator in ('op', 'ip', 'lc', 'rc', 'sp', 'acp'):\n                operator = 'gp'\n")),
     ("emit operands in swapped order", ("taperecorder", "expr = f'{func.__name__}({self.expr}, {other.expr})'", "expr = f'{func.__name__}({other.expr}, {self.expr})'")),
     ("swapped lookup key", ("taperecorder", "getattr(self.algebra, operator)[self.keys(), other.keys()]", "getattr(self.algebra, operator)[other.keys(), self.keys()]")),
+    ("the number is written with six significant digits", ("taperecorder", "expr = f'{func.__name__}({self.expr}, ({other},))'", "expr = f'{func.__name__}({self.expr}, ({other:g},))'")),
     ("scalar emitted bare", ("taperecorder", "expr = f'{func.__name__}({self.expr}, ({other},))'", "expr = f'{func.__name__}({self.expr}, {other})'")),
 ])
 def emission_pairing(ctx):
